@@ -67,6 +67,9 @@ def gen(rng, tier, index):
             ops.append(["dup", f"{nid};{cid};1;1;24;dup", 1])
         else:
             ops.append(["probe"])
+    if flavour == "amqtt" and rng.random() < 0.35:
+        # the same gateway object is stopped and started again on a new (clean) broker session
+        ops.insert(rng.randrange(len(ops) // 2, len(ops)), ["session_restart"])
     persist = rng.choice([None, None, "json", "pickle"])
     if persist and rng.random() < 0.8:
         ops.insert(rng.randrange(len(ops) // 2, len(ops)), ["restart"])
@@ -295,6 +298,16 @@ def run(case):
                                                                "raised": dict(broker.raised)}))
                         break
                     probes["probes_answered"] = probes.get("probes_answered", 0) + 1
+                elif kind == "session_restart":
+                    world.stop()
+                    world.settle()
+                    del broker.subs[:]
+                    del broker.attempted[:]
+                    world.acall(gateway.start())
+                    world.settle()
+                    health("session restart")
+                    check_subscriptions("after session restart")
+                    probes["session_restarts"] = probes.get("session_restarts", 0) + 1
                 elif kind == "restart":
                     world.stop()
                     world.settle()
